@@ -59,7 +59,7 @@ REQUIRED = ["files:read", "cues:compared", "clause:count-order", "clause:blocks-
             "clause:attrs", "clause:ts", "clause:geom-contain", "clause:geom-align", "clause:line-edge",
             "clause:sharing-equal", "clause:roundtrip", "class:crlf", "class:lf", "class:hours", "class:no-hours", "class:id",
             "class:no-id", "class:note", "class:style", "class:region", "feat:b", "feat:i", "feat:u", "feat:c.fg", "feat:c.bg",
-            "feat:lang", "feat:v", "feat:ruby", "feat:depth3", "feat:ts", "feat:ts>=2", "feat:cref,numeric", "feat:cref,lrm-rlm", "feat:cref,amp-lt-gt-nbsp", "feat:multi-line",
+            "feat:lang", "feat:v", "feat:ruby", "feat:ruby-2pairs", "feat:depth3", "feat:ts", "feat:ts>=2", "feat:cref,numeric", "feat:cref,lrm-rlm", "feat:cref,amp-lt-gt-nbsp", "feat:multi-line",
             "feat:vertical", "feat:position", "feat:size", "set:line:num0", "set:line:neg", "set:line:pct", "set:align"]
 SHARD_TIMEOUT = {"quick": 900, "thorough": 5400}
 
@@ -685,6 +685,15 @@ def _file_candidates(ast):
   for k, it in enumerate(items):
     if it.get("blanks", 1) != 1:
       c = copy.deepcopy(ast); c["items"][k]["blanks"] = 1; yield c
+  if ncues > 1:
+    # the same setting removed from every cue at once (keeps 'equal settings' equal)
+    names = sorted({n for it in items if it["k"] == "cue" for n, _v in it["settings"]})
+    for name in names:
+      c = copy.deepcopy(ast)
+      for it in c["items"]:
+        if it["k"] == "cue":
+          it["settings"] = [x for x in it["settings"] if x[0] != name]
+      yield c
   for k, it in enumerate(items):
     if it["k"] == "cue":
       had_empty = "empty-tag" in G.cue_features(it)
@@ -742,6 +751,7 @@ def file_features(ast):
 NO_SHRINK = set()
 # features that describe surface syntax already covered by a dedicated clause; dropped from mech keys unless alone
 _SURFACE = {"id", "hours"}
+_DERIVED = {"depth3"}          # implied by the structure already described by other features
 
 
 _TAGS = {"b", "i", "u", "v", "lang", "c", "c.fg", "c.bg"}
@@ -757,18 +767,21 @@ def mech_of(clause, ast):
       f.add("tag")
     elif x == "rt":
       f.add("ruby")
-    elif x == "ts" and "ts-in-tag" in feats:
+    elif x == "ts" and ("ts-in-tag" in feats or "ts>=2" in feats):
       pass
     elif x.startswith("position,"):
       f.add("position")
-    elif x.startswith("line:pct-frac"):
-      f.add(x.replace("line:pct-frac", "line:pct"))
+    elif x == "line:pct-frac":
+      pass
     elif x.startswith("cref,"):
       f.add("cref")
       f.add(x)
     else:
       f.add(x)
+  if "unclosed-rt" in f:
+    f = {"ruby", "unclosed-rt"}          # </ruby> while <rt> is open: what follows only changes the symptom
   f = {x for x in f if not any(y.startswith(x + ",") for y in f)}     # keep the most specific of a hierarchy
+  f -= _DERIVED
   core_feats = f - _SURFACE
   return clause + (":" + "+".join(sorted(core_feats or f)) if (core_feats or f) else "")
 
@@ -873,17 +886,20 @@ def check_file(ctx, rep, text, ast, do_roundtrip):
     ctx.nontriv(text)
   if doc is None and len(cues) > 1:
     # the reader raised: the cues are still judged one by one (each alone in a file) so that one crash does not hide the rest
-    for f in findings:
-      rep.report(f, text, ast)
-    findings = []
+    whole, findings = findings, []
+    isolated = 0
     for c in cues:
       sub = G.single_cue_file(c, ast["eol"])
       stext = G.render_file(sub)
       f1, _ = evaluate(stext, sub, stats, do_roundtrip=False)
       for f in f1:
         if f["clause"].startswith("reader-raises"):
-          ctx.count("isolated-cue-raises")
+          isolated += 1
         rep.report(f, stext, sub)
+    ctx.count("isolated-cue-raises", isolated)
+    if not isolated:
+      for f in whole:          # the exception needs the context of the whole file: report (and minimise) it as such
+        rep.report(f, text, ast)
   for f in findings:
     rep.report(f, text, ast)
   for k, v in stats.items():
